@@ -25,6 +25,8 @@ Record Inv (s : state) : Prop := mkInv {
   iH : forall t ts, gts s t = Some ts -> thr s t = Alive -> finalized s = false ->
          exists k d, tss s ts = TsLive t k d;
   iH2 : forall t ts, gts s t = Some ts -> ts < nextts s;
+  iK1 : forall t ts, gts s t = Some ts -> tss s ts <> TsFree;
+  iK3 : forall t ts o k d, gts s t = Some ts -> tss s ts = TsLive o k d -> o = t;
   iI : forall ts o k c, tss s ts = TsLive o k (Some c) ->
          1 <= k /\ (thr s o = Alive -> incb s o = true -> 2 <= k);
   iI2 : forall ts o k, tss s ts = TsLive o k None ->
@@ -84,6 +86,9 @@ Ltac sat1 HI :=
          | H : gts ?s ?t = Some ?ts, H1 : thr ?s ?t = Alive, H2 : finalized ?s = false |- _ =>
              pose_once (1, t, ts) (iH s HI t ts H H1 H2)
          | H : gts ?s ?t = Some ?ts |- _ => pose_once (2, t, ts) (iH2 s HI t ts H)
+         | H : gts ?s ?t = Some ?ts |- _ => pose_once (19, t, ts) (iK1 s HI t ts H)
+         | H : gts ?s ?t = Some ?ts, H1 : tss ?s ?ts = TsLive ?o ?k ?d |- _ =>
+             pose_once (20, t, ts, o, k, d) (iK3 s HI t ts o k d H H1)
          | H : reg ?s = Some (?t, ?ph) |- _ => pose_once (3, t, ph) (iJ s HI t ph H)
          | H : reg ?s = Some (?t, Clearing ?c ?ts) |- _ => pose_once (4, t, c, ts) (iJ2 s HI t c ts H)
          | H : cans ?s ?c = CAlive ?ts ?tl ?z |- _ => pose_once (5, c, ts, tl, z) (iD2 s HI c ts tl z H)
@@ -230,3 +235,162 @@ Proof.
   constructor; fields; intros; upd_split; sat HI; finish HI.
 Qed.
 
+
+Lemma inv_finalize s s' : Inv s -> step s EvFinalize s' -> Inv s'.
+Proof.
+  intros HI Hs. open_step Hs.
+  pose proof HI as HI'; destruct HI'.
+  constructor; fields; intros; try discriminate; try contradiction; try constructor;
+    repeat match goal with
+           | H : match ?x with _ => _ end = _ |- _ => destruct x eqn:?; try discriminate
+           | |- match ?x with _ => _ end = _ => destruct x eqn:?; try discriminate
+           end; sat HI; easy_goal; try (fresh_goal HI).
+  - rewrite (iF5 s HI ts H) in Heqt. discriminate.
+  - match goal with H : nextc s <= ?c, E : cans s ?c = _ |- _ => rewrite (iF6 s HI c H) in E; discriminate end.
+  - match goal with H : gts s ?t = Some ?ts |- _ => pose proof (iK1 s HI t ts H) end.
+    destruct (tss s ts); congruence.
+Qed.
+
+Lemma inv_step s e s' : Inv s -> step s e s' -> Inv s'.
+Proof.
+  intros HI Hs. destruct e.
+  - eapply inv_cb; eauto.
+  - eapply inv_pop; eauto.
+  - eapply inv_clear; eauto.
+  - eapply inv_makecanary; eauto.
+  - eapply inv_cbend; eauto.
+  - eapply inv_exit; eauto.
+  - eapply inv_finalize; eauto.
+Qed.
+
+Lemma reach_inv s : reach s -> Inv s.
+Proof. induction 1; [apply inv_init | eapply inv_step; eauto]. Qed.
+
+(* ---- consequences *)
+Lemma ndel_le_1 s ts : Inv s -> ndel s ts <= 1.
+Proof.
+  intros HI. destruct (tss s ts) eqn:E.
+  - rewrite (iF4 s HI ts E). lia.
+  - destruct (iF1 s HI _ _ _ _ E) as (_ & -> & _). lia.
+  - rewrite (iF3 s HI ts E). lia.
+Qed.
+
+Lemma zombie_facts s : Inv s ->
+  NoDup (zombies s) /\ forall c, In c (zombies s) -> exists ts o k, cans s c = CAlive ts None true /\ tss s ts = TsLive o k (Some c) /\ thr s o = Exited.
+Proof.
+  intros HI. split; [apply (iB s HI)|]. intros c Hin.
+  destruct (iC s HI c Hin) as [ts E]. destruct (iD2 s HI _ _ _ _ E) as (o & k & E2).
+  exists ts, o, k. repeat split; auto. eapply (iD5 s HI); eauto.
+Qed.
+
+Lemma exited_not_leaked s t ts : Inv s -> thr s t = Exited -> gts s t = Some ts ->
+  tss s ts = TsDeleted \/
+  (exists c, In c (zombies s) /\ cans s c = CAlive ts None true) \/
+  (exists t' c, reg s = Some (t', Clearing c ts)).
+Proof.
+  intros HI Hx Hg. destruct (tss s ts) as [|o k d|] eqn:E; auto.
+  - exfalso. eapply (iK1 s HI); eauto.
+  - pose proof (iK3 s HI _ _ _ _ _ Hg E). subst o. destruct d as [c|].
+    + destruct (iF2 s HI _ _ _ _ E) as (tl & z & Ec). destruct tl as [u|].
+      * destruct (iD4 s HI _ _ _ _ Ec) as (_ & Ha & Hgu & _).
+        destruct (iH s HI u ts Hgu Ha) as (k' & d' & E'). { eapply (iF1 s HI); eauto. }
+        rewrite E in E'. inversion E'; subst. congruence.
+      * destruct z.
+        -- right; left. exists c. split; auto. apply (iD3 s HI _ _ _ Ec).
+        -- right; right. destruct (iD6 s HI _ _ Ec) as [t' Hr]. eauto.
+    + destruct (iI2 s HI _ _ _ E) as (_ & _ & _ & Ha & _). congruence.
+Qed.
+
+(* the thread state of a live foreign thread never changes *)
+Lemma gts_stable s e s' t ts : Inv s -> step s e s' ->
+  gts s t = Some ts -> thr s' t = Alive -> finalized s' = false -> gts s' t = Some ts.
+Proof.
+  intros HI Hs Hg Ha Hf.
+  destruct e; try (unfold step, step_fn in Hs; fail).
+  all: open_step Hs; use_busy; unfold do_exit in *; fields;
+    repeat match goal with
+           | H : context [match ?x with _ => _ end] |- _ => destruct x eqn:?
+           | |- context [match ?x with _ => _ end] => destruct x eqn:?
+           end; fields; upd_split; sat HI;
+    repeat match goal with H : tss _ _ = TsLive _ _ ?d |- _ => is_var d; destruct d end; sat HI;
+    try congruence; try lia; auto.
+Qed.
+
+(* the macro runner used by the correspondence visits reachable states only *)
+Lemma sweep_all_reach : forall fuel s s', reach s -> sweep_all fuel s = Some s' -> reach s'.
+Proof.
+  induction fuel as [|f IH]; intros s s' Hr H; cbn [sweep_all] in H; [discriminate|].
+  destruct (reg s) as [[t [|c ts|]]|].
+  - destruct (step_fn s EvSweepPop) eqn:E; [|discriminate]. eapply IH; [|eauto]. eapply r_step; eauto.
+  - destruct (step_fn s EvSweepClear) eqn:E; [|discriminate]. eapply IH; [|eauto]. eapply r_step; eauto.
+  - eapply r_step; eauto.
+  - inversion H; subst; auto.
+Qed.
+
+Lemma mstep_reach s e s' : reach s -> mstep s e = Some s' -> reach s'.
+Proof.
+  intros Hr H. destruct e; cbn [mstep] in H.
+  - destruct (step_fn s (EvCb t)) eqn:E; [|discriminate].
+    eapply sweep_all_reach; [|eauto]. eapply r_step; eauto.
+  - eapply r_step; eauto.
+  - eapply r_step; eauto.
+  - eapply r_step; eauto.
+Qed.
+
+(* ---- statements of C36/Props.v *)
+Lemma no_fatal s : reach s -> fatal s = false.
+Proof. intros H. apply (iA s (reach_inv s H)). Qed.
+
+Lemma deleted_at_most_once s ts : reach s -> ndel s ts <= 1.
+Proof. intros H. apply ndel_le_1, reach_inv, H. Qed.
+
+Lemma valid_thread_state s t ts : reach s -> thr s t = Alive -> finalized s = false ->
+  gts s t = Some ts -> exists k d, tss s ts = TsLive t k d /\ ndel s ts = 0.
+Proof.
+  intros H Ha Hf Hg. pose proof (reach_inv s H) as HI.
+  destruct (iH s HI t ts Hg Ha Hf) as (k & d & E). exists k, d. split; auto.
+  apply (iF1 s HI _ _ _ _ E).
+Qed.
+
+Lemma persistent s e s' t ts : reach s -> step s e s' ->
+  gts s t = Some ts -> thr s' t = Alive -> finalized s' = false -> gts s' t = Some ts.
+Proof. intros H. apply gts_stable, reach_inv, H. Qed.
+
+Lemma distinct_threads_distinct_states s t1 t2 ts : reach s -> finalized s = false ->
+  thr s t1 = Alive -> thr s t2 = Alive -> gts s t1 = Some ts -> gts s t2 = Some ts -> t1 = t2.
+Proof.
+  intros H Hf A1 A2 G1 G2. pose proof (reach_inv s H) as HI.
+  destruct (iH s HI t1 ts G1 A1 Hf) as (k & d & E).
+  exact (iK3 s HI t2 ts t1 k d G2 E).
+Qed.
+
+Lemma zombies_ok s : reach s ->
+  NoDup (zombies s) /\
+  forall c, In c (zombies s) -> exists ts o k, cans s c = CAlive ts None true /\
+                                               tss s ts = TsLive o k (Some c) /\ thr s o = Exited.
+Proof. intros H. apply zombie_facts, reach_inv, H. Qed.
+
+Lemma canary_pointers_valid s : reach s ->
+  (forall t c, tlsc s t = Some (Some c) -> exists ts, cans s c = CAlive ts (Some t) false /\ thr s t = Alive) /\
+  (forall ts o k c, tss s ts = TsLive o k (Some c) -> exists tl z, cans s c = CAlive ts tl z).
+Proof.
+  intros H. pose proof (reach_inv s H) as HI. split.
+  - intros t c E. destruct (iE s HI t c E) as [ts Ec]. exists ts. split; auto. apply (iD4 s HI _ _ _ _ Ec).
+  - intros. eapply (iF2 s HI); eauto.
+Qed.
+
+Lemma no_leak s t ts : reach s -> thr s t = Exited -> gts s t = Some ts ->
+  tss s ts = TsDeleted \/
+  (exists c, In c (zombies s) /\ cans s c = CAlive ts None true) \/
+  (exists t' c, reg s = Some (t', Clearing c ts)).
+Proof. intros H. apply exited_not_leaked, reach_inv, H. Qed.
+
+(* after a complete registration (macro first callback) the zombie list as seen at its start is
+   gone: sweep_all only returns with reg = None, and it pops until the list is empty *)
+Lemma counter_keeps_alive s t ts k d : reach s -> thr s t = Alive -> gts s t = Some ts ->
+  tss s ts = TsLive t k d -> incb s t = true -> 2 <= k.
+Proof.
+  intros H Ha Hg E Hi. pose proof (reach_inv s H) as HI. destruct d as [c|].
+  - apply (iI s HI _ _ _ _ E); auto.
+  - destruct (iI2 s HI _ _ _ E) as (_ & Hb & _). congruence.
+Qed.
